@@ -10,7 +10,7 @@
       through Cond/Traps.v and the generated guards.
    S: the property itself: the outcome is Ok or a documented error. *)
 From Coq Require Import List ZArith Bool String.
-From YV Require Import Cond.HostTypes Cond.HostModel Cond.Traps Gen.HostFns.
+From YV Require Import Cond.HostTypes Cond.HostModel Cond.Traps Cond.StrModel Gen.HostFns.
 Import ListNotations.
 Local Open Scope string_scope.
 Local Open Scope Z_scope.
@@ -29,6 +29,9 @@ Inductive shape :=
 | SHashRange (fname : string) (off size : option Z)
 | SConsoleRange (off len : option Z) (datalen : option Z)
 | SDataRange (fname : string) (off len : option Z)
+| SStrOp (op : str_op) (runtime : bool) (a b : option bytes) (matched : option bool)
+    (* `a op b`; runtime: some operand is known only at scan time, so the host function of
+       wasm/string.rs runs; matched: whether the rule (whose condition is this expression) matched *)
 | SOther.                                         (* outside the model *)
 
 Inductive obs := OOk | OErr (timeout : bool) | OPanic | OAbort | OTimeout | ONotRun.
@@ -54,9 +57,18 @@ Definition shape_crashes (prof : profile) (s : shape) : option bool :=
   | SHashRange f (Some o) (Some sz) => Some (is_rpanic (hash_range module_fns prof f (Some 0) o sz))
   | SConsoleRange (Some o) (Some l) dl => Some (is_rpanic (console_range module_fns prof "console.log_bytes" dl o l))
   | SDataRange f (Some o) (Some l) => Some (is_rpanic (data_range module_fns prof f o l))
+  | SStrOp op rt (Some a) (Some b) _ => Some (rt && is_rpanic (str_eval str_guards op a b))
   | SOther => None
   (* an undefined operand: the expression is undefined before the call / instruction *)
   | _ => Some false
+  end.
+
+(* where the model gives a verdict and the rule's verdict was observed, they agree *)
+Definition verdict_ok (s : shape) : bool :=
+  match s with
+  | SStrOp op _ (Some a) (Some b) (Some m) =>
+      match str_eval str_guards op a b with Ret (Some v) => Bool.eqb v m | _ => true end
+  | _ => true
   end.
 
 Definition crashed (o : obs) : bool := match o with OPanic | OAbort => true | _ => false end.
@@ -66,9 +78,10 @@ Definition agree (prof : profile) (sc : list shape * obs) : bool :=
   match snd sc with
   | ONotRun | OErr true | OTimeout => true          (* nothing observed / time is not modelled *)
   | o =>
-      if existsb (fun p => match p with Some true => true | _ => false end) preds then crashed o
-      else if forallb (fun p => match p with Some false => true | _ => false end) preds then negb (crashed o)
-      else true
+      (if existsb (fun p => match p with Some true => true | _ => false end) preds then crashed o
+       else if forallb (fun p => match p with Some false => true | _ => false end) preds then negb (crashed o)
+       else true)
+      && (crashed o || forallb verdict_ok (fst sc))
   end.
 
 Definition check_case (c : case) : bool := forallb (agree (prof_of c)) (scans c).
